@@ -141,6 +141,7 @@ def run(ctx: C.Ctx):
     # the end-to-end part draws from its own stream (seeded from ctx.rng first), so that a replay of one of its
     # index-addressed cases (ctx.only) can skip the string-level part without changing what it generates
     e2e_rng = random.Random(ctx.rng.getrandbits(64))
+    nest_rng = random.Random(ctx.rng.getrandbits(64))
     if ctx.only is None:
         _run_strings(ctx)
     try:
@@ -149,6 +150,9 @@ def run(ctx: C.Ctx):
         c08_e2e = None
     if c08_e2e is not None:
         c08_e2e.run(ctx, e2e_rng)
+        # part C: the same class models reached through enclosing classes, over histories (c08_nest.py)
+        from harness.props import c08_nest
+        c08_nest.run(ctx, nest_rng)
 
 
 def _run_strings(ctx: C.Ctx):
